@@ -51,6 +51,19 @@ def _key(cls, k):
 
 VALUES = [0, 1, -1, 255, 2**40, None, True, "s", [1, 2], {"a": 1}, 3.5]
 
+# fixeddict types that share at least one declared key with another type (the
+# source of an update / |= may itself be a fixed-entry dictionary of another
+# type: e.g. LDSliceParameters and HQSliceParameters, FrameSize and
+# VideoParameters)
+FD_PARTNERS = {}
+for _a in FD_NAMES:
+    _pa = [
+        _b for _b in FD_NAMES
+        if _b != _a and set(FD_TYPES[_a].entry_objs) & set(FD_TYPES[_b].entry_objs) and set(FD_TYPES[_b].entry_objs) - set(FD_TYPES[_a].entry_objs)
+    ]
+    if _pa:
+        FD_PARTNERS[_a] = _pa
+
 
 class C27(Spec):
     prop = "C27"
@@ -80,7 +93,19 @@ class C27(Spec):
 
     def generate(self, rng, idx, tier):
         tname = rng.choice(FD_NAMES)
+        if rng.random() < 0.3:
+            tname = rng.choice(sorted(FD_PARTNERS))
         cls = FD_TYPES[tname]
+        partner = rng.choice(FD_PARTNERS[tname]) if tname in FD_PARTNERS else None
+
+        def fd_items():
+            # keys of the partner type: mostly the shared ones (a legal merge),
+            # sometimes one the target does not declare
+            pk = list(FD_TYPES[partner].entry_objs)
+            shared = [k for k in pk if k in cls.entry_objs]
+            n = rng.choice([1, 1, 2, 3])
+            pool = shared if rng.random() < 0.6 else pk
+            return [[["n", rng.choice(pool)], rng.choice(VALUES)] for _ in range(n)]
 
         def key():
             if rng.random() < 0.2:
@@ -95,6 +120,8 @@ class C27(Spec):
             o = rng.choice(["set", "set", "setdefault", "update", "update", "ior", "ior", "copy", "pickle", "pickle", "del"])
             if o in ("set", "setdefault"):
                 ops.append({"op": o, "k": key(), "v": rng.choice(VALUES)})
+            elif o in ("update", "ior") and partner is not None and rng.random() < 0.5:
+                ops.append({"op": o, "how": "fd", "src": partner, "items": fd_items()})
             elif o == "update":
                 ops.append({"op": o, "how": rng.choice(["kwargs", "mapping", "pairs", "both"]), "items": items()})
             elif o == "ior":
@@ -139,6 +166,16 @@ class C27(Spec):
             has_undeclared = any(k not in declared for k, _ in pairs)
             exc = None
             result = None
+            src = None
+            if o.get("how") == "fd":
+                # the source is a fixed-entry dictionary of another type
+                scls = FD_TYPES.get(o.get("src"))
+                try:
+                    src = scls(dict(pairs))
+                except Exception:  # noqa: BLE001 — (only a hand-edited/shrunk case)
+                    continue
+                pairs = list(dict(pairs).items())
+                stats["fixeddict-sourced-merges"] += 1
             try:
                 if op == "new":
                     how = o["how"]
@@ -163,7 +200,9 @@ class C27(Spec):
                 elif op == "update":
                     how = o["how"]
                     strs = all(isinstance(k, str) and k.isidentifier() for k, _ in pairs)
-                    if how == "kwargs" and strs:
+                    if how == "fd":
+                        d.update(src)
+                    elif how == "kwargs" and strs:
                         d.update(**dict(pairs))
                     elif how == "pairs":
                         d.update(pairs)
@@ -172,7 +211,9 @@ class C27(Spec):
                     else:
                         d.update(dict(pairs))
                 elif op == "ior":
-                    if o["how"] == "pairs":
+                    if o["how"] == "fd":
+                        d |= src
+                    elif o["how"] == "pairs":
                         d |= pairs
                     else:
                         d |= dict(pairs)
@@ -316,7 +357,7 @@ def w_apply(w, o):
     elif k == "uint_lit":
         w.write_uint_lit(o["n"], o["v"])
     elif k == "bitarray":
-        w.write_bitarray(o["n"], bitarray(o["v"]))
+        w.write_bitarray(o["n"], bitarray(o["v"], endian="little") if o.get("le") else bitarray(o["v"]))
     elif k == "bytes":
         w.write_bytes(o["n"], bytes.fromhex(o["v"]))
     elif k == "uint":
@@ -455,7 +496,12 @@ class C20(Spec):
         if k == "bitarray":
             n = rng.choice([0, 1, 3, 8, 13])
             m = n if rng.random() < 0.7 else rng.choice([max(0, n - 2), n + 1])
-            return {"op": k, "n": n, "v": "".join(rng.choice("01") for _ in range(m))}
+            o = {"op": k, "n": n, "v": "".join(rng.choice("01") for _ in range(m))}
+            if rng.random() < 0.25:
+                # the caller's array may use the other bit-endianness (its bits,
+                # in index order, are what must appear on the wire)
+                o["le"] = True
+            return o
         if k == "bytes":
             n = rng.choice([0, 1, 2, 5])
             m = n if rng.random() < 0.7 else rng.choice([max(0, n - 1), n + 1])
